@@ -599,7 +599,7 @@ func (c *Ctx) r104() {
 // R10.5: a remembered position whose element was deleted is dead.
 func (c *Ctx) r105() {
 	const rule = "R10.5"
-	c.R.Rule(rule, "library packages: a local integer that only ever receives copies of other index variables or constants (a remembered position such as `iPaddingBox = i`, never stepped with ++/--/+=) and is used in a deletion `S = append(S[:p], S[p+k:]...)` designates nothing afterwards: on every path from the deletion to the next use of p inside an index or slice expression there must be an assignment to p. A stale position deletes the wrong element on the next round, or runs past a later deletion and panics (`background:padding-box border-box border-box` → slice bounds out of range)")
+	c.R.Rule(rule, "library packages: a local integer that only ever receives copies of other index variables or constants (a remembered position such as `iPaddingBox = i`, never stepped with ++/--/+=) and is used in a deletion `S = append(S[:p], S[p+k:]...)` designates nothing afterwards: on every path from the deletion to the next use of p inside an index or slice expression there must be an assignment to p. (b) when such a variable takes the index of an inner loop but is declared outside the enclosing loop, the enclosing loop's body resets it to a constant outside the inner loop — a position found in one segment must not be acted on in the next. A stale position deletes the wrong element on the next round, or runs past a later deletion and panics (`background:padding-box border-box border-box` → slice bounds out of range)")
 	nMemo, nDel := 0, 0
 	for _, rel := range libPkgs {
 		pk := c.P.Pkg(rel)
@@ -766,7 +766,110 @@ func (c *Ctx) r105() {
 			}
 		}
 	}
-	c.R.Note("R10.5: %d remembered-position variables, %d deletions at such a position", nMemo, nDel)
+	// (b) a position remembered from an inner scan does not survive into the next round of the enclosing loop
+	nCarry := 0
+	for _, rel := range libPkgs {
+		pk := c.P.Pkg(rel)
+		if pk == nil {
+			continue
+		}
+		info := pk.TypesInfo
+		for _, fd := range load.FuncDecls(pk) {
+			if fd.Body == nil {
+				continue
+			}
+			loopsOf := func(n ast.Node) []ast.Node { // innermost first
+				var out []ast.Node
+				for x := c.P.Parent(n); x != nil; x = c.P.Parent(x) {
+					switch x.(type) {
+					case *ast.ForStmt, *ast.RangeStmt:
+						out = append(out, x)
+					case *ast.FuncDecl, *ast.FuncLit:
+						return out
+					}
+				}
+				return out
+			}
+			inductionVar := func(loop ast.Node) types.Object {
+				switch l := loop.(type) {
+				case *ast.RangeStmt:
+					if id, ok := l.Key.(*ast.Ident); ok {
+						return info.Defs[id]
+					}
+				case *ast.ForStmt:
+					if as, ok := l.Init.(*ast.AssignStmt); ok && len(as.Lhs) == 1 {
+						if id, ok := as.Lhs[0].(*ast.Ident); ok {
+							return info.Defs[id]
+						}
+					}
+				}
+				return nil
+			}
+			ast.Inspect(fd.Body, func(x ast.Node) bool {
+				as, ok := x.(*ast.AssignStmt)
+				if !ok || as.Tok != token.ASSIGN || len(as.Lhs) != 1 || len(as.Rhs) != 1 {
+					return true
+				}
+				lid, ok1 := as.Lhs[0].(*ast.Ident)
+				rid, ok2 := ast.Unparen(as.Rhs[0]).(*ast.Ident)
+				if !ok1 || !ok2 {
+					return true
+				}
+				m, isVar := info.Uses[lid].(*types.Var)
+				if !isVar || !isIntType(m.Type()) {
+					return true
+				}
+				loops := loopsOf(as)
+				if len(loops) < 2 || inductionVar(loops[0]) == nil || inductionVar(loops[0]) != info.Uses[rid] {
+					return true
+				}
+				// m must only ever receive copies / constants (a remembered position)
+				onlyMemo := true
+				ast.Inspect(fd.Body, func(q ast.Node) bool {
+					switch st := q.(type) {
+					case *ast.IncDecStmt:
+						if id, ok := st.X.(*ast.Ident); ok && info.Uses[id] == types.Object(m) {
+							onlyMemo = false
+						}
+					case *ast.AssignStmt:
+						for _, l := range st.Lhs {
+							if id, ok := l.(*ast.Ident); ok && (info.Uses[id] == types.Object(m) || info.Defs[id] == types.Object(m)) && st.Tok != token.ASSIGN && st.Tok != token.DEFINE {
+								onlyMemo = false
+							}
+						}
+					}
+					return true
+				})
+				if !onlyMemo {
+					return true
+				}
+				inner, outer := loops[0], loops[1]
+				// declared inside the outer loop's body? then every round starts afresh
+				if m.Pos() >= outer.Pos() && m.Pos() <= outer.End() {
+					return true
+				}
+				nCarry++
+				// a reset in the outer loop's body, outside the inner loop
+				reset := false
+				ast.Inspect(outer, func(q ast.Node) bool {
+					if q == inner {
+						return false
+					}
+					if st, ok := q.(*ast.AssignStmt); ok && len(st.Lhs) == 1 && len(st.Rhs) == 1 {
+						if id, ok := st.Lhs[0].(*ast.Ident); ok && info.Uses[id] == types.Object(m) {
+							if _, isK := intConst(info, st.Rhs[0]); isK {
+								reset = true
+							}
+						}
+					}
+					return true
+				})
+				c.R.Check(reset, rule, fmt.Sprintf("%s.%s/%s is reset in every round of the enclosing loop", pk.Name, load.FuncName(fd), lid.Name), c.pos(as), "reset outside the inner scan", lid.Name+" remembers a position of the inner scan but is declared outside the enclosing loop and never reset there: a position found while handling one segment is still set while the next segment is handled (`background:url(a) padding-box,url(b) border-box` loses both keywords)")
+				return true
+			})
+		}
+	}
+	c.R.Note("R10.5: %d remembered-position variables, %d deletions at such a position, %d remembered across an enclosing loop", nMemo, nDel, nCarry)
 	c.R.Floor(rule, "deletions at a remembered position", nDel, 1)
 }
 
@@ -1128,4 +1231,119 @@ func (c *Ctx) scratchAliasing(rule string, rels []string) {
 		}
 	}
 	c.R.Exists(rule, "stored-and-refilled scratch buffers", "-", fmt.Sprintf("%d (store, refill) pairs on the same local buffer", n))
+}
+
+// R10.8: a loop that consumes tokens ends when the lexer reports the end of input.
+func (c *Ctx) r108() {
+	const rule = "R10.8"
+	c.R.Rule(rule, "html, xml, svg: at the end of input (and after an error) the lexer returns ErrorToken on every call. For every loop whose body takes a token from the buffer (`tb.Shift()`), under the stipulation that this token is the ErrorToken — every test `X.TokenType == K` / `case K` with another K fails, tests for ErrorToken succeed — no path leads from the Shift back to it: the loop is left. A skip loop that only waits for its closing token never returns on a truncated document (`<svg><?xml-stylesheet href=\"a.css\"`)")
+	n := 0
+	for _, rel := range []string{"html", "xml", "svg"} {
+		pk := c.P.Pkg(rel)
+		if pk == nil {
+			continue
+		}
+		info := pk.TypesInfo
+		for _, fd := range load.FuncDecls(pk) {
+			if fd.Body == nil || load.RecvName(fd) == "TokenBuffer" {
+				continue
+			}
+			g := c.graph(pk, fd)
+			isError := func(e ast.Expr) bool {
+				return strings.HasSuffix(str(e), ".ErrorToken")
+			}
+			for _, y := range g.Nodes {
+				a := y.Ast()
+				if a == nil || y.Kind != flow.KStmt {
+					continue
+				}
+				shift := false
+				flowInspectCalls(a, func(call *ast.CallExpr) {
+					if strings.HasSuffix(calleeName(info, call), "TokenBuffer).Shift") {
+						shift = true
+					}
+				})
+				if !shift {
+					continue
+				}
+				// the innermost enclosing loop: leaving it counts as leaving
+				var loopNode ast.Node
+				for x := c.P.Parent(a); x != nil; x = c.P.Parent(x) {
+					stop := false
+					switch x.(type) {
+					case *ast.ForStmt, *ast.RangeStmt:
+						loopNode = x
+						stop = true
+					case *ast.FuncDecl, *ast.FuncLit:
+						stop = true
+					}
+					if stop {
+						break
+					}
+				}
+				if loopNode == nil {
+					continue
+				}
+				inside := func(q *flow.Node) bool {
+					qa := q.Ast()
+					if qa == nil && q.Of != nil {
+						qa = q.Of.Ast()
+					}
+					return qa == nil || loopNode.Pos() <= qa.Pos() && qa.End() <= loopNode.End()
+				}
+				// the token variable bound by this statement (if any): tests on other variables (peeked tokens) are not decided
+				tokVar := ""
+				if as, ok := y.Stmt.(*ast.AssignStmt); ok && len(as.Lhs) == 1 {
+					tokVar = str(as.Lhs[0])
+				}
+				if tokVar == "" || tokVar == "_" {
+					continue // a token taken and dropped inside another token loop: that loop's own token decides
+				}
+				n++
+				seen := map[*flow.Node]bool{}
+				var back []*flow.Node
+				var walk func(q *flow.Node, path []*flow.Node) bool
+				walk = func(q *flow.Node, path []*flow.Node) bool {
+					for _, sc := range q.Succs {
+						if sc == y {
+							back = append(path, sc)
+							return true
+						}
+						if seen[sc] || !inside(sc) {
+							continue
+						}
+						if (sc.Kind == flow.KTrue || sc.Kind == flow.KFalse) && sc.Of != nil {
+							var k ast.Expr
+							subj := ""
+							neg := false
+							switch sc.Of.Kind {
+							case flow.KCond:
+								if be, ok := ast.Unparen(sc.Of.Expr).(*ast.BinaryExpr); ok && (be.Op == token.EQL || be.Op == token.NEQ) && strings.HasSuffix(str(be.X), ".TokenType") {
+									k, subj, neg = be.Y, strings.TrimSuffix(str(be.X), ".TokenType"), be.Op == token.NEQ
+								}
+							case flow.KCase:
+								if sc.Of.Tag != nil && strings.HasSuffix(str(sc.Of.Tag), ".TokenType") {
+									k, subj = sc.Of.Expr, strings.TrimSuffix(str(sc.Of.Tag), ".TokenType")
+								}
+							}
+							if k != nil && (tokVar == "" || subj == tokVar) {
+								truth := isError(k) != neg
+								if (sc.Kind == flow.KTrue) != truth {
+									continue
+								}
+							}
+						}
+						seen[sc] = true
+						if walk(sc, append(path, sc)) {
+							return true
+						}
+					}
+					return false
+				}
+				hang := walk(y, nil)
+				c.R.Check(!hang, rule, fmt.Sprintf("%s.%s/token loop #%d leaves on ErrorToken", pk.Name, load.FuncName(fd), n), c.pos(a), "no way back to the Shift when the token is ErrorToken", "the loop takes another token although the lexer has reported ErrorToken — it will do so forever: "+pathStr(c, g, back))
+			}
+		}
+	}
+	c.R.Floor(rule, "token-consuming loops", n, 5)
 }
